@@ -23,6 +23,7 @@ type RunConfig struct {
 	Solver     string
 	CrossCheck string // second solver for unsat assertion verdicts ("" = off)
 	CrossEvery int
+	ForcedStart  []int
 	SampleModels int // per worker: number of completed paths for which a full model is computed (samples / differential replay)
 }
 
@@ -58,6 +59,7 @@ type PathState struct {
 	Facts   map[uint32]bool
 	Bounds  map[uint32][2]uint64 // unsigned interval known for a BV term
 	IntMode bool
+	Loose   bool // library calls on symbolic arguments may be over-approximated (totality checks only)
 	Forced  []int
 	Trace   []Decision
 	Nondets []NondetRec
@@ -384,6 +386,9 @@ func (in *Interp) branch(c *Term, site ssa.Instruction) bool {
 	}
 	if v, ok := in.known(c); ok {
 		in.stats.FactHits++
+		if traceFns && in.path.Steps > 20000 && in.path.Steps < 22000 {
+			fmt.Fprintf(os.Stderr, "known %v: %s\n", v, c.String())
+		}
 		return v
 	}
 	alt := in.decideAmong([]*Term{c, in.ts.Not(c)}, "br")
@@ -420,6 +425,9 @@ func (in *Interp) decideAmong(alts []*Term, kind string) int {
 	if idx < len(p.Forced) {
 		alt := p.Forced[idx]
 		p.Trace = append(p.Trace, Decision{Alt: alt, N: len(alts), Kind: kind})
+		if traceFns {
+			fmt.Fprintf(os.Stderr, "decision #%d forced kind=%s alt=%d cond=%s\n", idx, kind, alt, alts[alt].String())
+		}
 		in.addPC(alts[alt])
 		return alt
 	}
@@ -433,7 +441,15 @@ func (in *Interp) decideAmong(alts []*Term, kind string) int {
 			feas = append(feas, i)
 			break
 		}
-		r := in.feasible(a)
+		var r Result
+		if p.Loose && in.ts.HasMul(a) {
+			// totality checks: arithmetic-heavy conditions (number and duration formatting)
+			// are not decided; both sides are explored
+			r = Unknown
+			in.stats.LooseKept++
+		} else {
+			r = in.feasible(a)
+		}
 		if r == Sat {
 			feas = append(feas, i)
 		} else if r == Unknown {
@@ -454,6 +470,9 @@ func (in *Interp) decideAmong(alts []*Term, kind string) int {
 		in.siblings = append(in.siblings, sib)
 	}
 	p.Trace = append(p.Trace, Decision{Alt: alt, N: len(alts), Kind: kind})
+	if traceFns {
+		fmt.Fprintf(os.Stderr, "decision #%d live kind=%s alt=%d feas=%v cond=%s\n", idx, kind, alt, feas, alts[alt].String())
+	}
 	in.addPC(alts[alt])
 	return alt
 }
@@ -886,6 +905,12 @@ func (in *Interp) check(conj []*Term) Result {
 			}
 		}
 	}
+	loose := in.path != nil && in.path.Loose
+	if loose {
+		in.cur.SetTimeout(400) // totality checks: an undecided branch is simply kept
+	} else {
+		in.cur.SetTimeout(in.cur.timeoutMs)
+	}
 	t0 := time.Now()
 	r := in.cur.Check(conj)
 	if d := os.Getenv("SYMGO_SLOW"); d != "" {
@@ -895,7 +920,7 @@ func (in *Interp) check(conj []*Term) Result {
 		}
 	}
 	in.pendingModel = nil
-	if r == Unknown {
+	if r == Unknown && !loose {
 		// portfolio fallback: the same text on the other solvers, one shot
 		script := in.cur.Script(conj)
 		var vars []*Term
